@@ -764,7 +764,7 @@ class Eval:
             return e
         if self.mode in ("parse", "getter") and not explicit and not (ty in ("u64", "i64") and hi <= sym.TYMAX["i64"]):
             self.obl("truncation", False, f"{what}: {v.key()} (range {lo}..{hi}) does not fit {ty}: the parser continues "
-                     f"with a wrapped value", role=f"wrap-{ty}")
+                     f"with a wrapped value", role="wrap")
         return E("cast", (v,), ty)
 
     def e_CXXStaticCastExpr(self, n):
